@@ -7,6 +7,7 @@ use crate::Ctx;
 const N_DAYS: i64 = 2_932_897;
 
 pub fn run_date(case: &str) -> String {
+    crate::util::note_current(case);
     let secs: i64 = case.trim().parse().unwrap();
     match guarded(move || khttp::date::get_date_from_secs(secs)) {
         Ok(b) => hex(&b),
@@ -42,6 +43,7 @@ pub fn gen_date(ctx: &Ctx) {
 }
 
 pub fn run_cache(case: &str) -> String {
+    crate::util::note_current(case);
     let readings: Vec<i64> = case.split(',').map(|x| x.trim().parse().unwrap()).collect();
     let h = std::thread::spawn(move || {
         let mut outs = Vec::new();
